@@ -84,67 +84,49 @@ Proof.
   rewrite (name_char_not_paren c (or_introl H1)). simpl. apply all_name_chars_no_paren; auto.
 Qed.
 
-(* no jump token, at any depth of conditionals and loops, targets the reserved name "@join" *)
-Fixpoint jumps_not_join (t : token) {struct t} : Prop :=
-  let toks := fix toks (l : list token) : Prop :=
-      match l with [] => True | x :: r => jumps_not_join x /\ toks r end in
-  let brs := fix brs (l : list branch) : Prop :=
-      match l with
-      | [] => True
-      | Branch _ cont _ :: r => toks cont /\ brs r
-      end in
-  match t with
-  | TJump tg _ => tg <> "@join"
-  | TCond branches => brs branches
-  | TLoop _ _ cont _ => toks cont
-  | _ => True
-  end.
-
-Lemma targets_ok_jumps_defined : forall ps t,
-  targets_ok ps t -> jumps_not_join t -> jumps_defined ps t.
+Lemma targets_ok_jumps_defined : forall ps t, targets_ok ps t -> jumps_defined ps t.
 Proof.
-  intros ps. induction t using token_ind'; intros Ht Hn; try exact I.
+  intros ps. induction t using token_ind'; intros Ht; try exact I.
   - (* TCond *)
     simpl in *. induction H as [|[c cont chs] r [Hcont _] Hr IH]; auto.
-    destruct Ht as [_ [Ht1 Ht2]]. destruct Hn as [Hn1 Hn2]. split; [|apply IH; auto].
-    clear IH Ht2 Hn2 Hr. induction Hcont as [|x l Hx Hl IHl]; auto.
-    destruct Ht1 as [A1 A2]. destruct Hn1 as [B1 B2]. split; [auto|apply IHl; auto].
+    destruct Ht as [_ [Ht1 Ht2]]. split; [|apply IH; auto].
+    clear IH Ht2 Hr. induction Hcont as [|x l Hx Hl IHl]; auto.
+    destruct Ht1 as [A1 A2]. split; [auto|apply IHl; auto].
   - (* TLoop *)
     simpl in *. destruct Ht as [_ Ht]. induction H as [|x l Hx Hl IHl]; auto.
-    destruct Ht as [A1 A2]. destruct Hn as [B1 B2]. split; [auto|apply IHl; auto].
+    destruct Ht as [A1 A2]. split; [auto|apply IHl; auto].
   - (* TJump *)
-    simpl in *. destruct Ht as [Ht|Ht]; [contradiction|exact Ht].
+    simpl in *. exact Ht.
 Qed.
 
 Lemma parse_ok_nav_lemma : forall pp is_call xs lines0 story,
   parse pp is_call xs lines0 = POk story ->
-  (forall k p, In (k, p) (passages story) -> Forall jumps_not_join (content p)) ->
   story_jumps_defined story /\ names_plain story.
 Proof.
-  intros pp is_call xs lines0 story H Hnj. split.
+  intros pp is_call xs lines0 story H. split.
   - intros k p Hin. destruct (validated_targets_lemma _ _ _ _ _ H k p Hin) as [_ Ht].
-    specialize (Hnj k p Hin). unfold tokens_targets_ok in Ht.
-    clear Hin. induction Ht; inversion Hnj; subst; constructor; auto.
+    unfold tokens_targets_ok in Ht.
+    clear Hin. induction Ht; constructor; auto.
     apply targets_ok_jumps_defined; auto.
   - intros k p Hin. apply valid_name_no_paren. eapply parse_ok_names_lemma; eauto.
 Qed.
 
-(* for every story the compiler model returns that has no `-> @join` jump: following jump chains
-   from a defined passage never reaches the unknown-passage site *)
+(* for every story the compiler model returns: following jump chains from a defined passage never reaches
+   the unknown-passage site *)
 Lemma parse_ok_never_unknown_lemma : forall pp is_call xs lines0 story,
   parse pp is_call xs lines0 = POk story ->
-  (forall k p, In (k, p) (passages story) -> Forall jumps_not_join (content p)) ->
   forall orc ctxkeys unknown fuel spec visited s,
     name_defined story spec ->
     goto_rec_g orc ctxkeys story unknown fuel spec visited s = goto_rec orc ctxkeys story fuel spec visited s.
 Proof.
-  intros pp is_call xs lines0 story H Hnj orc ctxkeys unknown fuel spec visited s Hd.
-  destruct (parse_ok_nav_lemma _ _ _ _ _ H Hnj) as [H1 H2].
+  intros pp is_call xs lines0 story H orc ctxkeys unknown fuel spec visited s Hd.
+  destruct (parse_ok_nav_lemma _ _ _ _ _ H) as [H1 H2].
   apply wf_never_unknown_passage_lemma; auto.
 Qed.
 
-(* ... and the hypothesis is needed: the validator accepts `-> @join` *)
-Lemma join_jump_accepted :
+(* `-> @join` written as a jump is rejected (fix 3c6eb71; before it the validator let it through and the engine
+   could not follow it: StoryWfProofs.join_jump_unknown shows what such a story does at run time) *)
+Lemma join_jump_rejected :
   parse (mkPyparse (fun _ => true) (fun _ => Some (0, []))) (fun _ => true) no_extractors
-        [":: Start"; "hi<>"; "-> @join"] = POk join_jump_story.
+        [":: Start"; "hi<>"; "-> @join"] = PDiag (DSyntax "call:jump-to-join" 0).
 Proof. vm_compute. reflexivity. Qed.
